@@ -14,7 +14,7 @@ func init() {
 	register(&Rule{
 		ID:    "C22",
 		Title: "Estimated gas limit is affordable",
-		Pkgs:  []string{"process/economics"},
+		Pkgs:  []string{"process/economics", "process/transaction"},
 		Explain: "Decides that economicsData.ComputeGasLimitBasedOnBalance has the shape of an inverse of the fee function - the structural necessary conditions of 'fee(estimate) <= balance - value'. " +
 			"(S1) the amount available for fees is Sub(balance, tx.GetValue()); the dividend of every big quotient in the estimator derives from it by subtractions only, never from the raw balance, and nothing adds to it in place. " +
 			"(S2) a successful return lies behind the dominance fact moveBalanceFee <= available (read from the big.Int Cmp tests). " +
@@ -26,7 +26,68 @@ func init() {
 	})
 }
 
+// c22EstimatorFedAPricedTransaction: the estimate is made for the transaction the node will then
+// simulate. The cost estimator fills in a missing gas price before it asks for the gas limit: every
+// path of addMissingFieldsIfNeeded to getTxGasLimit passes the store of the minimum gas price or
+// the edge on which the price is known to be non-zero. With the price still zero the fee of any
+// gas limit is zero, the affordability branch is skipped and the block maximum is returned for a
+// transaction that is then given the minimum price - far beyond the sender's balance.
+func c22EstimatorFedAPricedTransaction(c *core.Ctx) {
+	fn := anchorM(c, "process/transaction", "transactionCostEstimator", "addMissingFieldsIfNeeded")
+	if fn == nil || len(fn.Params) < 2 {
+		return
+	}
+	tx := ssa.Value(fn.Params[1])
+	isPrice := func(v ssa.Value) bool {
+		base, f := core.FieldLoad(v)
+		return f != nil && f.Name() == "GasPrice" && base == tx
+	}
+	priced := func(in ssa.Instruction) bool {
+		st, ok := in.(*ssa.Store)
+		if !ok {
+			return false
+		}
+		fa, ok := st.Addr.(*ssa.FieldAddr)
+		return ok && core.FieldOfAddr(fa).Name() == "GasPrice" && fa.X == tx
+	}
+	nonZero := func(b *ssa.BasicBlock, si int) bool {
+		ifi, ok := b.Instrs[len(b.Instrs)-1].(*ssa.If)
+		if !ok {
+			return false
+		}
+		bo, ok := ifi.Cond.(*ssa.BinOp)
+		if !ok {
+			return false
+		}
+		z := func(v ssa.Value) bool { k, isC := core.ConstInt(v); return isC && k == 0 }
+		if !((isPrice(bo.X) && z(bo.Y)) || (isPrice(bo.Y) && z(bo.X))) {
+			return false
+		}
+		switch bo.Op {
+		case token.EQL:
+			return si == 1
+		case token.NEQ, token.GTR:
+			return si == 0
+		}
+		return false
+	}
+	n := 0
+	core.Instrs(fn, func(in ssa.Instruction) {
+		cc := core.CallOf(in)
+		if cc == nil || cc.StaticCallee() == nil || cc.StaticCallee().Name() != "getTxGasLimit" {
+			return
+		}
+		n++
+		esc, path := core.PathQ{Fn: fn, Via: priced, ViaEdge: nonZero, Target: func(x ssa.Instruction, _ *ssa.BasicBlock) bool { return x == in }}.Escape()
+		c.Check(esc == nil, "C22/estimator-fed-a-priced-transaction", fmt.Sprintf("transactionCostEstimator.addMissingFieldsIfNeeded/getTxGasLimit#%d", n), in.Pos(),
+			"the gas price is filled in (or known non-zero) before the gas limit is estimated",
+			"the gas limit is estimated while the transaction's gas price can still be zero ("+c.P.PathString(path)+"): every fee is zero, the affordability test is skipped and the block maximum is returned for a transaction that gets the minimum price afterwards - its fee is far above the sender's balance")
+	})
+	c.Floor("C22/estimator-fed-a-priced-transaction", 1)
+}
+
 func runC22(c *core.Ctx) {
+	c22EstimatorFedAPricedTransaction(c)
 	const pkg = "process/economics"
 	fn := anchorM(c, pkg, "economicsData", "ComputeGasLimitBasedOnBalance")
 	if fn == nil {
